@@ -28,19 +28,22 @@ func emitPipelineCases(c *Ctx, progs []*Prog, checks []pipeCheck, shard int, non
 	o := c.Out
 	o.WriteFile("Tab.v", commonTab(c)+
 		"From Avo Require Import Proofs.AllocCorrect.\n(* hypothesis of model_regalloc_preserves_semantics for the translated register file *)\nLemma regfile_ok_tab : regfile_ok regs = true.\nProof. vm_compute. reflexivity. Qed.\nPrint Assumptions regfile_ok_tab.\nLemma regfile_kinds_ok_tab : regfile_kinds_ok regs = true.\nProof. vm_compute. reflexivity. Qed.\nPrint Assumptions regfile_kinds_ok_tab.\n")
-	o.Stage("Tab.v")
-	o.Oblig("Tab.pass_order_ok", "Tab.info_constants_ok", "Tab.regfile_ok_tab", "Tab.regfile_kinds_ok_tab")
+	o.WriteFile("Order.v", orderFile(c))
+	o.Stage("Tab.v", "Order.v")
+	o.Oblig("Order.pass_order_ok", "Tab.info_constants_ok", "Tab.regfile_ok_tab", "Tab.regfile_kinds_ok_tab")
 	stages := map[string]int{}
 	tagCount := map[string]int{}
 	sizes := map[string]int{}
 	var files []string
 	for s := 0; s*shard < len(progs); s++ {
 		base := s * shard
-		var rows []string
+		var rows, e2e []string
 		for j := base; j < base+shard && j < len(progs); j++ {
 			p := progs[j]
 			ob := runStaged(p)
 			rows = append(rows, "("+p.Coq()+",\n   "+ob.Coq()+")")
+			ec, ea, en := runCompile(p)
+			e2e = append(e2e, fmt.Sprintf("(%d, %s, %s)", ec, cPairs(ea), cNodes(en)))
 			st := ob.Stage
 			if st == "" {
 				st = "ok"
@@ -70,6 +73,11 @@ func emitPipelineCases(c *Ctx, progs []*Prog, checks []pipeCheck, shard int, non
 			fmt.Fprintf(&b, "Definition %s := Eval vm_compute in List.map (N.add %d) (%s).\nPrint %s.\n", ck.Name, base, ck.Expr, ck.Name)
 			o.ExpectEmpty(name, ck.Name, ck.What, ck.Desc)
 		}
+		fmt.Fprintf(&b, "Definition e2e : list e2e_t := %s.\n", cListNL(e2e))
+		fmt.Fprintf(&b, "Definition R_e2e_violation := Eval vm_compute in List.map (N.add %d) (where_not2 e2e_alloc_ok cases e2e).\nPrint R_e2e_violation.\n", base)
+		o.ExpectEmpty(name, "R_e2e_violation", "violation", "the allocation produced by the real pass.Compile, run end to end, is invalid for the program: a definition shares storage with another value that is live after it")
+		fmt.Fprintf(&b, "Definition R_e2e_mismatch := Eval vm_compute in List.map (N.add %d) (where_not2 e2e_same cases e2e).\nPrint R_e2e_mismatch.\n", base)
+		o.ExpectEmpty(name, "R_e2e_mismatch", "mismatch", "pass.Compile run end to end (pass order of pass/pass.go) vs the passes run one by one in the modelled order: error code, allocation or final nodes differ")
 		if hasCheck(checks, "R_mismatch") {
 			fmt.Fprintf(&b, "Definition D_codes := Eval vm_compute in diffs pinned_knobs regs cases.\nPrint D_codes.\n")
 		}
